@@ -180,42 +180,50 @@ structure SigRec where
 
 /-! ### `Message::read_records` -/
 
+/-- The RDATA of a record as far as this model decodes it: only TSIG (`RData::TSIG`);
+RDLENGTH 0 is `RData::Update0(type)`, everything else is covered by `rdok`. -/
+def tsigOf (buf : Bytes) (f : Frame) : Outcome (Option TsigData) :=
+  if f.rtype = 250 ∧ f.rdLen ≠ 0 then
+    match readTsigData buf f.rdStart f.rdLen with
+    | .ok d => .ok (some d)
+    | .err => .err
+    | .panic s => .panic s
+  else .ok none
+
+/-- The body of the `for` loop of `read_records` after `Record::read` succeeded: `none` is an
+`Err`, otherwise the new loop state (`sig`, `edns` = EDNS version of the OPT seen so far). -/
+def recStep (isAdd opUpd : Bool) (pos : Nat) (f : Frame) (td : Option TsigData)
+    (sig : Option SigRec) (edns : Option Nat) : Option (Option SigRec × Option Nat) :=
+  if opUpd = false ∧ f.rtype ≠ 41 ∧ f.rdLen = 0 then none              -- InvalidEmptyRecord
+  else if sig.isSome then none                                          -- RecordAfterSig
+  else if isAdd = false ∧ (f.rtype = 41 ∨ f.rtype = 24 ∨ f.rtype = 250) then none
+  else if isAdd = false then some (sig, edns)
+  else
+    match td with
+    | some d =>
+      some (some { start := pos, stop := f.rdEnd, name := f.name, rclass := f.rclass,
+                   ttl := f.ttl, data := d }, edns)
+    | none =>
+      if f.rtype = 41 then
+        if edns.isSome then none                                        -- DuplicateEdns
+        else some (sig, some (f.ttl / 65536 % 256))
+      else some (sig, edns)
+
 /-- `Message::read_records(decoder, count, is_additional, op)` started at `pos`, threading the
-loop state (`sig`, `edns` = the EDNS version of the OPT seen so far).  Returns the position after
-the last record read. -/
+loop state.  Returns the position after the last record read. -/
 def readRecords (buf : Bytes) (isAdd opUpd : Bool) :
     Nat → Nat → Option SigRec → Option Nat → Outcome (Nat × Option SigRec × Option Nat)
   | 0, pos, sig, edns => .ok (pos, sig, edns)
   | k + 1, pos, sig, edns =>
     match readFrame buf pos with
     | .ok f =>
-      -- RDATA: only the TSIG decoder is modelled; RDLENGTH 0 is `RData::Update0(type)`
-      let tsig : Outcome (Option TsigData) :=
-        if f.rtype = 250 ∧ f.rdLen ≠ 0 then
-          match readTsigData buf f.rdStart f.rdLen with
-          | .ok d => .ok (some d)
-          | .err => .err
-          | .panic s => .panic s
-        else .ok none
-      match tsig with
+      match tsigOf buf f with
+      | .ok td =>
+        match recStep isAdd opUpd pos f td sig edns with
+        | some (sig', edns') => readRecords buf isAdd opUpd k f.rdEnd sig' edns'
+        | none => .err
       | .err => .err
       | .panic s => .panic s
-      | .ok td =>
-        if opUpd = false ∧ f.rtype ≠ 41 ∧ f.rdLen = 0 then .err           -- InvalidEmptyRecord
-        else if sig.isSome then .err                                       -- RecordAfterSig
-        else if isAdd = false ∧ (f.rtype = 41 ∨ f.rtype = 24 ∨ f.rtype = 250) then .err
-        else if isAdd = false then readRecords buf isAdd opUpd k f.rdEnd sig edns
-        else
-          match td with
-          | some d =>
-            readRecords buf isAdd opUpd k f.rdEnd
-              (some { start := pos, stop := f.rdEnd, name := f.name, rclass := f.rclass,
-                      ttl := f.ttl, data := d }) edns
-          | none =>
-            if f.rtype = 41 then
-              if edns.isSome then .err                                     -- DuplicateEdns
-              else readRecords buf isAdd opUpd k f.rdEnd sig (some (f.ttl / 65536 % 256))
-            else readRecords buf isAdd opUpd k f.rdEnd sig edns
     | .err => .err
     | .panic s => .panic s
 
